@@ -32,7 +32,7 @@ OpSeqs == {s \in SeqsUpTo(ShapeOps, MaxLen) : WellFormed(s)}
 MixAtts == <<"fail", "gen", "err", "xwrong">>
 Mixed(ops, shift) == [k \in DOMAIN ops |-> St(ops[k], MixAtts[((k + shift) % 4) + 1])]
 \* all attachment patterns for short test cases, two patterns for the longest ones
-PatternsOf(s) == IF Len(s) <= 2 THEN {Uniform(s, a) : a \in Atts} \cup {Mixed(s, 0), Mixed(s, 2)}
+PatternsOf(s) == IF Len(s) <= 2 THEN {Uniform(s, a) : a \in Atts} \cup {Mixed(s, h) : h \in 0..3}
                  ELSE {Uniform(s, "none"), Mixed(s, 0)}
 ShapePrograms == UNION {PatternsOf(s) : s \in OpSeqs}
 ShapeBatches == {<<p>> : p \in ShapePrograms}
